@@ -31,9 +31,11 @@ CONSTRUCTORS = {"default_rng", "Generator", "RandomState", "SeedSequence", "Rand
 
 
 class Prov:
-    def __init__(self, kind: str, detail: str = ""):
+    def __init__(self, kind: str, detail: str = "", node: Optional[ast.AST] = None, scope=None):
         self.kind = kind  # global-py | global-np | shared | private | param | unknown | notrng
         self.detail = detail
+        self.node = node  # the seed expression of a private generator
+        self.scope = scope  # the function in which that expression is evaluated
 
     def __repr__(self) -> str:
         return f"{self.kind}({self.detail})" if self.detail else self.kind
@@ -102,7 +104,7 @@ class Provenance:
                             cn = dotted(v.func) or ""
                             if cn.split(".")[-1] in ("default_rng", "Generator", "RandomState", "Random"):
                                 seed = v.args[0] if v.args else next((k.value for k in v.keywords if k.arg == "seed"), None)
-                                return Prov("private", norm(seed) if seed is not None else "<unseeded>")
+                                return Prov("private", norm(seed) if seed is not None else "<unseeded>", seed, sc)
                         if isinstance(v, ast.Attribute) and v.attr == "rng":
                             return Prov("shared", norm(v))
                         if isinstance(v, ast.Name):
@@ -111,9 +113,80 @@ class Provenance:
         if isinstance(e, ast.Call):
             cn = dotted(e.func) or ""
             if cn.split(".")[-1] in ("default_rng", "Generator", "RandomState", "Random"):
-                seed = e.args[0] if e.args else None
-                return Prov("private", norm(seed) if seed is not None else "<unseeded>")
+                seed = e.args[0] if e.args else next((k.value for k in e.keywords if k.arg == "seed"), None)
+                return Prov("private", norm(seed) if seed is not None else "<unseeded>", seed, fn)
         return Prov("unknown", norm(e)[:40])
+
+
+def seed_leaves(pv: "Provenance", callers, fn: FuncInfo, e: ast.AST, depth: int = 0) -> Tuple[List[str], List[str]]:
+    """(good, bad) leaves of a seed expression.  good: a read of the `seed_sequence` property of a Config (the slot the
+    setter keeps current; `self._seed_sequence` inside Config itself).  bad: any other seed-named attribute (for
+    example the constructor-time copy `_original_seed_sequence`, which the setter does not update), or a seed-named
+    name that cannot be traced to a good leaf."""
+    good: List[str] = []
+    bad: List[str] = []
+    if depth > 6:
+        return good, bad
+
+    def visit(n: ast.AST) -> None:
+        if isinstance(n, ast.Attribute):
+            if n.attr == "seed_sequence":
+                good.append(norm(n))
+                return
+            if n.attr == "_seed_sequence" and isinstance(n.value, ast.Name) and n.value.id == "self" and fn.cls is not None and fn.cls.name == "Config":
+                good.append(norm(n))
+                return
+            if "seed" in n.attr.lower():
+                bad.append(norm(n))
+                return
+            visit(n.value)
+            return
+        if isinstance(n, ast.Name):
+            traced = False
+            for sc in pv.scopes(fn):
+                binds = [a for a in walk_no_nested(sc.node) if isinstance(a, ast.Assign) and any(isinstance(t, ast.Name) and t.id == n.id for t in a.targets)]
+                if binds:
+                    traced = True
+                    for a in binds:
+                        g, b = seed_leaves(pv, callers, sc, a.value, depth + 1)
+                        good.extend(g)
+                        bad.extend(b)
+                    break
+                if n.id in sc.all_params():
+                    traced = True
+                    if "seed" not in n.id.lower():
+                        break
+                    sites = callers.get(id(sc.node), []) if callers is not None else []
+                    # a nested per-shot function is called from its enclosing function
+                    encl = pv.scopes(sc)[1:]
+                    found = False
+                    for (caller, call) in sites:
+                        actual = _actual(sc, call, n.id)
+                        if actual is not None and not isinstance(actual, tuple):
+                            found = True
+                            g, b = seed_leaves(pv, callers, caller, actual, depth + 1)
+                            good.extend(g)
+                            bad.extend(b)
+                    for en in encl[:1]:
+                        for c in ast.walk(en.node):
+                            if isinstance(c, ast.Call):
+                                for kw in c.keywords:
+                                    if kw.arg == n.id and not (isinstance(kw.value, ast.Name) and kw.value.id == n.id):
+                                        found = True
+                                        g, b = seed_leaves(pv, callers, en, kw.value, depth + 1)
+                                        good.extend(g)
+                                        bad.extend(b)
+                    if not found:
+                        bad.append(f"parameter {n.id} of {sc.name} (no call site passes a seed that can be traced)")
+                    break
+            if not traced and "seed" in n.id.lower():
+                bad.append(n.id)
+            return
+        for c in ast.iter_child_nodes(n):
+            visit(c)
+
+    visit(e)
+    return good, bad
 
 
 def _draw_calls(node: ast.AST):
@@ -139,11 +212,14 @@ def run(ctx: Context) -> None:
     ctx.rule("C11c", "no callable flowing into a dask.delayed region draws from a generator shared between shots")
     ctx.rule("C11d", "parallel loops write only loop-locals, induction-indexed elements or whole-variable reductions; the last job takes the remainder")
     ctx.rule("C11e", "memoised results are never written in place")
+    ctx.rule("C11f", "no object that the shots of a dask.delayed region share (bound once by partial(...), or a free variable of the per-shot closure) is written in place by the per-shot callable")
     pv = Provenance(idx, res)
+    an = Analysis(idx, res)
+    an.run([f for f in idx.all_functions()])
     clause_a(ctx, idx, reg, res, pv)
-    clause_bc(ctx, idx, reg, res, pv)
+    clause_bc(ctx, idx, reg, res, pv, an)
     clause_d(ctx, idx)
-    clause_e(ctx, idx, res)
+    clause_e(ctx, idx, res, an)
 
 
 # ================================================================================================ (a)
@@ -173,6 +249,9 @@ def clause_a(ctx, idx, reg, res, pv) -> None:
     ctx.require_floor("reachable functions", len(reach), 400)
     n_draws = 0
     n_ctor = 0
+    n_private = 0
+    from .C13 import _callers_map
+    callers = _callers_map(idx, res)
     everything: List[FuncInfo] = []
     for f in idx.all_functions():
         everything.append(f)
@@ -216,15 +295,24 @@ def clause_a(ctx, idx, reg, res, pv) -> None:
                               f"`{norm(c)[:70]}` draws from {p.detail}: whatever else the process did with that generator since the "
                               f"simulator's Config was created changes the samples of a seeded run", norm(c)[:90])
             if p.kind == "private":
-                ok = any(t in p.detail for t in ("seed",)) and p.detail != "<unseeded>"
+                if p.node is None:
+                    good, bad = [], ["<unseeded>"]
+                else:
+                    good, bad = seed_leaves(pv, callers, p.scope or fn, p.node)
+                ok = bool(good) and not bad
+                n_private += 1
+                ctx.instance("C11a", key + "|seeded-from-config.seed_sequence", "ok" if ok else "VIOLATION", where, seed=p.detail, good=str(sorted(set(good))), bad=str(bad))
                 if not ok and reachable:
+                    why = (f"it reads {', '.join('`' + b + '`' for b in bad)}, which is not the `seed_sequence` property the setter keeps current"
+                           if bad else "it does not derive from config.seed_sequence")
                     ctx.violation("C11a", key + "|unseeded", fn.file, c.lineno,
-                                  f"the generator of `{norm(c)[:60]}` is constructed from `{p.detail}`, which does not derive from the "
-                                  f"configured seed: seeded runs are not reproducible", p.detail)
+                                  f"the generator of `{norm(c)[:60]}` is constructed from `{p.detail}`: {why}; two simulators configured with the "
+                                  f"same seed (e.g. through `config.seed_sequence = s`) do not give the same samples", p.detail)
         for c in ast.walk(fn.node):
             if isinstance(c, ast.Call) and (dotted(c.func) or "").split(".")[-1] in ("default_rng", "Random", "RandomState"):
                 n_ctor += 1
     ctx.require_floor("randomness draw sites resolved", n_draws, 24)
+    ctx.require_floor("draws from privately constructed generators whose seed was traced", n_private, 1)
     ctx.count("generator constructions", n_ctor)
 
 
@@ -242,7 +330,7 @@ def _delayed_bindings(fn: FuncInfo) -> Dict[str, ast.AST]:
     return out
 
 
-def clause_bc(ctx, idx, reg, res, pv) -> None:
+def clause_bc(ctx, idx, reg, res, pv, an) -> None:
     n_regions = 0
     callers = None
     for fn in list(idx.all_functions()):
@@ -330,7 +418,136 @@ def clause_bc(ctx, idx, reg, res, pv) -> None:
                                       f"`{norm(c)[:60]}` runs inside the dask.delayed region of {fn.name} but draws from {p.kind} generator "
                                       f"`{p.detail}`, which all shots share: the order in which dask schedules the shots changes the samples "
                                       f"(and sequential execution consumes it in shot order)", norm(c)[:90])
+            clause_f(ctx, idx, res, callers, an, fn, target)
     ctx.require_floor("dask.delayed regions", n_regions, 2)
+
+
+# ================================================================================================ (f)
+
+
+def _callable_targets(idx, res, callers, owner: FuncInfo, e: ast.AST, d: int = 0):
+    """What a callable-valued expression may denote: [(function, bound positional exprs, bound keyword exprs, owner of those exprs)]."""
+    out = []
+    if d > 6:
+        return out
+    if isinstance(e, ast.Call) and (dotted(e.func) or "").split(".")[-1] == "partial" and e.args:
+        for (f, bp, bk, bo) in _callable_targets(idx, res, callers, owner, e.args[0], d + 1):
+            # partial of a partial: inner bindings come first
+            kws = dict(bk)
+            kws.update({k.arg: (k.value, owner) for k in e.keywords if k.arg})
+            out.append((f, list(bp) + [(a, owner) for a in e.args[1:]], kws, bo))
+        return out
+    if isinstance(e, ast.Name):
+        bound = False
+        for n in walk_no_nested(owner.node):
+            if isinstance(n, ast.Assign) and any(isinstance(t_, ast.Name) and t_.id == e.id for t_ in n.targets):
+                bound = True
+                out.extend(_callable_targets(idx, res, callers, owner, n.value, d + 1))
+        ld = res.local_defs(owner).get(e.id)
+        if ld is not None:
+            return out + [(ld, [], {}, owner)]
+        if e.id in owner.all_params():
+            bound = True
+            for (caller, call) in callers.get(id(owner.node), []):
+                actual = _actual(owner, call, e.id)
+                if isinstance(actual, tuple):
+                    for n in walk_no_nested(caller.node):
+                        if isinstance(n, ast.Assign) and any(isinstance(t_, ast.Name) and t_.id == actual[1] for t_ in n.targets) \
+                                and isinstance(n.value, ast.Call):
+                            for kw in n.value.keywords:
+                                if kw.arg == e.id:
+                                    out.extend(_callable_targets(idx, res, callers, caller, kw.value, d + 1))
+                elif actual is not None:
+                    out.extend(_callable_targets(idx, res, callers, caller, actual, d + 1))
+        if bound:
+            return out
+        # a free variable of a nested function: look it up in the enclosing functions
+        if ".<locals>." in owner.qualname:
+            for enc in Provenance(idx, res).scopes(owner)[1:]:
+                got = _callable_targets(idx, res, callers, enc, e, d + 1)
+                if got:
+                    return got
+    if isinstance(e, (ast.Name, ast.Attribute)):
+        t = res.unwrap_callable(owner.module, e, owner)
+        if t is not None:
+            out.append((t, [], {}, owner))
+    return out
+
+
+def _param_index(f: FuncInfo, pos: Optional[int], name: Optional[str]) -> Optional[int]:
+    params = f.all_params()
+    if name is not None:
+        return params.index(name) if name in params else None
+    return pos if pos is not None and pos < len(params) else None
+
+
+def clause_f(ctx: Context, idx, res, callers, an, fn: FuncInfo, target: ast.AST) -> None:
+    """Shot-shared objects may not be written in place inside the region."""
+    n_bind = 0
+
+    def report(f: FuncInfo, pi: int, what: str, where_fn: FuncInfo, line: int, text: str) -> None:
+        how = an.summary(f).write_how.get(pi, "")
+        key = f"{fn.qualname}|shared|{f.qualname}|{f.all_params()[pi]}"
+        ctx.violation("C11f", key, where_fn.file, line,
+                      f"{what} is one object for all shots of the dask.delayed region of {fn.name}, and {f.name} writes its parameter "
+                      f"`{f.all_params()[pi]}` in place ({how}): concurrently scheduled shots overwrite each other's data, so the samples of a "
+                      f"seeded run depend on the thread interleaving (and differ from sequential execution)", text)
+
+    def check_target(f: FuncInfo, bp, bk, call: Optional[ast.Call], call_owner: Optional[FuncInfo], shared_names: Set[str]) -> None:
+        nonlocal n_bind
+        writes = an.summary(f).writes
+        for i, (a, o) in enumerate(bp):
+            n_bind += 1
+            pi = _param_index(f, i, None)
+            ok = pi is None or pi not in writes
+            ctx.instance("C11f", f"{fn.qualname}|bound|{f.qualname}|#{i}", "ok" if ok else "VIOLATION", f"{ctx.relpath(o.file)}:{a.lineno}")
+            if not ok:
+                report(f, pi, f"`{norm(a)[:50]}`, bound once by partial(...) in {o.name}", o, a.lineno, norm(a)[:90])
+        for k, (a, o) in bk.items():
+            n_bind += 1
+            pi = _param_index(f, None, k)
+            ok = pi is None or pi not in writes
+            ctx.instance("C11f", f"{fn.qualname}|bound|{f.qualname}|{k}", "ok" if ok else "VIOLATION", f"{ctx.relpath(o.file)}:{a.lineno}")
+            if not ok:
+                report(f, pi, f"`{k}={norm(a)[:50]}`, bound once by partial(...) in {o.name}", o, a.lineno, f"{k}={norm(a)[:80]}")
+        if call is not None and call_owner is not None:
+            for j, a in enumerate(call.args):
+                if isinstance(a, ast.Name) and a.id in shared_names:
+                    n_bind += 1
+                    pi = _param_index(f, len(bp) + j, None)
+                    ok = pi is None or pi not in writes
+                    ctx.instance("C11f", f"{fn.qualname}|free|{f.qualname}|{a.id}", "ok" if ok else "VIOLATION", f"{ctx.relpath(call_owner.file)}:{a.lineno}")
+                    if not ok:
+                        report(f, pi, f"the free variable `{a.id}` of the per-shot closure {call_owner.name}", call_owner, a.lineno, norm(call)[:90])
+            for kw in call.keywords:
+                if kw.arg and isinstance(kw.value, ast.Name) and kw.value.id in shared_names:
+                    n_bind += 1
+                    pi = _param_index(f, None, kw.arg)
+                    ok = pi is None or pi not in writes
+                    ctx.instance("C11f", f"{fn.qualname}|free|{f.qualname}|{kw.value.id}", "ok" if ok else "VIOLATION", f"{ctx.relpath(call_owner.file)}:{kw.value.lineno}")
+                    if not ok:
+                        report(f, pi, f"the free variable `{kw.value.id}` of the per-shot closure {call_owner.name}", call_owner, kw.value.lineno, norm(call)[:90])
+
+    for (T, bp, bk, _o) in _callable_targets(idx, res, callers, fn, target):
+        # the per-shot call passes only per-shot values (seed=seed + idx): bound arguments are the shared ones
+        check_target(T, bp, bk, None, None, set())
+        if ".<locals>." in T.qualname:
+            local = set(T.all_params()) | {n.id for n in walk_no_nested(T.node) if isinstance(n, ast.Name) and isinstance(n.ctx, ast.Store)}
+            shared = {n.id for n in walk_no_nested(T.node) if isinstance(n, ast.Name) and isinstance(n.ctx, ast.Load)} - local
+            # direct in-place writes on a free variable
+            for w in an.writes:
+                if w.fn is T:
+                    base = w.target.split("[")[0].split(".")[0]
+                    if base in shared:
+                        ctx.violation("C11f", f"{fn.qualname}|free-write|{T.qualname}|{base}", T.file, w.line,
+                                      f"the per-shot closure {T.name} writes `{w.target}` in place ({w.how}); `{base}` is a free variable shared by all "
+                                      f"shots of the dask.delayed region", w.target)
+            for c in calls_in(T.node):
+                for (f, bp2, bk2, _o2) in _callable_targets(idx, res, callers, T, c.func):
+                    if f is T:
+                        continue
+                    check_target(f, bp2, bk2, c, T, shared)
+    ctx.require_floor(f"shot-shared bindings checked in the region of {fn.name}", n_bind, 4)
 
 
 def _region_callables(idx, res, callers, fn: FuncInfo, target: ast.AST, depth: int = 0) -> List[Tuple[object, FuncInfo]]:
@@ -510,9 +727,7 @@ def _check_prange_target(t, aug, local, outer_assigned, derived, problems, stmt)
 # ================================================================================================ (e)
 
 
-def clause_e(ctx: Context, idx, res) -> None:
-    an = Analysis(idx, res)
-    an.run([f for f in idx.all_functions()])
+def clause_e(ctx: Context, idx, res, an) -> None:
     ctx.require_floor("memoised callables", len(an.memo_funcs) + len(an.memo_names), 10)
     n = 0
     for w in an.writes:
